@@ -79,7 +79,17 @@ structure RunOut (α : Type) where
 /-- overwrite the first `xs.length` elements of `row` -/
 def overwrite (row xs : List α) : List α := xs.take row.length ++ row.drop xs.length
 
-/-- `InitialiseStates(n)`: width from cell 0, every cell's own initial row written into it -/
+/-- write `xs` into the flat buffer at `pos` (the contiguous `copy` of `ApplySlice`); past the end = Go slice panic -/
+def writeFlat (buf : List α) (pos : Nat) (xs : List α) : Except String (List α) :=
+  if pos + xs.length > buf.length then .error "index-out-of-range"
+  else .ok (buf.take pos ++ xs ++ buf.drop (pos + xs.length))
+
+def chunks (w : Nat) : Nat → List α → List (List α)
+  | 0, _ => []
+  | n + 1, l => l.take w :: chunks w n (l.drop w)
+
+/-- `InitialiseStates(n)`: the array is `n × width(cell 0)`; every cell's own initial row is copied to the start of
+its row with `ApplySlice` (a contiguous copy: a wider row runs on into the next row, or off the end = panic). -/
 def initStates (km : KModel α) (spec : ParamSpec) (lay : List (Nat × Nat)) (params : List (List α)) (n : Nat) :
     Except String (List (List α)) := do
   let rows ← (List.range n).mapM fun i => do
@@ -88,7 +98,39 @@ def initStates (km : KModel α) (spec : ParamSpec) (lay : List (Nat × Nat)) (pa
   match rows with
   | [] => pure []
   | r0 :: _ =>
-    if rows.all (fun r => r.length = r0.length) then pure rows else .error "hetero-init"
+    let w := r0.length
+    let rec fill (i : Nat) (rs : List (List α)) (buf : List α) : Except String (List α) :=
+      match rs with
+      | [] => .ok buf
+      | r :: rest => do
+        let buf' ← writeFlat buf (i * w) r
+        fill (i + 1) rest buf'
+    let buf ← fill 0 rows (List.replicate (n * w) Num.zero)
+    pure (chunks w n buf)
+
+/-- what the goroutine of cell `i` does: decode its parameter column, take input block `i % nBlocks`, run the kernel
+on its state row, write the outputs into the first timesteps of its output rows and the states into its state row -/
+def cellStep (km : KModel α) (spec : ParamSpec) (lay : List (Nat × Nat)) (params : List (List α))
+    (inputs : List (List (List α))) (i : Nat) (st : List α) (orow : List (List α)) :
+    Except String (List α × List (List α)) := do
+  let p ← cellParams spec lay params i
+  let ins := inputs[i % inputs.length]?.getD []
+  let r ← km.run p ins st
+  let newO := (orow.zip (r.outputs ++ List.replicate (orow.length - r.outputs.length) [])).map
+    fun (old, new) => overwrite old new
+  pure (overwrite st r.states, newO)
+
+/-- cells `i, i+1, …` in order (the real code runs them concurrently; C05 is about why the order does not matter):
+state rows `cells`, output rows `outs` (which may be more than there are cells: the surplus is left alone) -/
+def runCells (km : KModel α) (spec : ParamSpec) (lay : List (Nat × Nat)) (params : List (List α))
+    (inputs : List (List (List α))) : Nat → List (List α) → List (List (List α)) →
+    Except String (List (List α) × List (List (List α)))
+  | _, [], outs => .ok ([], outs)
+  | _, _ :: _, [] => .error "index-out-of-range"
+  | i, st :: restS, orow :: restO => do
+    let (s', o') ← cellStep km spec lay params inputs i st orow
+    let (ss, os) ← runCells km spec lay params inputs (i + 1) restS restO
+    pure (s' :: ss, o' :: os)
 
 /-- `Run(inputs, states, outputs)` for all cells; cell `i` uses input block `i % nBlocks` -/
 def run (km : KModel α) (spec : ParamSpec) (x : RunIn α) : Except String (RunOut α) := do
@@ -96,22 +138,8 @@ def run (km : KModel α) (spec : ParamSpec) (x : RunIn α) : Except String (RunO
   let states ← match x.states with
     | some s => pure s
     | none => initStates km spec lay x.params x.nCells
-  let nBlocks := x.inputs.length
-  if nBlocks = 0 then .error "int-div-zero" else
-  let rec go (i : Nat) (cells : List (List α)) (outs : List (List (List α))) (accS : List (List α)) (accO : List (List (List α))) :
-      Except String (RunOut α) :=
-    match cells with
-    | [] => .ok { outputs := accO.reverse ++ outs, states := accS.reverse }
-    | st :: restS =>
-      match outs with
-      | [] => .error "index-out-of-range"
-      | orow :: restO => do
-        let p ← cellParams spec lay x.params i
-        let ins := x.inputs[i % nBlocks]?.getD []
-        let r ← km.run p ins st
-        let newO := (orow.zip (r.outputs ++ List.replicate (orow.length - r.outputs.length) [])).map
-          fun (old, new) => overwrite old new
-        go (i + 1) restS restO (overwrite st r.states :: accS) (newO :: accO)
-  go 0 states x.outputs [] []
+  if x.inputs.length = 0 then .error "int-div-zero" else
+  let (ss, os) ← runCells km spec lay x.params x.inputs 0 states x.outputs
+  pure { outputs := os, states := ss }
 
 end OW.Sim
